@@ -106,11 +106,19 @@ def make_function(c):
         return f, freeze(x0), freeze(K), {"kind": "container", "form": form, "n": n, "vseed": vseed}, {"container": True, "form": form}
     prog = progs.gen(c, max_ops=c.int(2, 10))
     x0 = progs.input_value(prog, vseed)
-    y_shape = onp.shape(progs.run(prog, x0, onp))
+    if c.chance(1, 5):
+        # end the program with a value that is used three times (through a function, through an index expression covering every entry, and
+        # unchanged) and hand exactly that value back: the caller's cotangent object is the one the three contributions are made from
+        src = c.int(0, len(prog["stmts"]))
+        prog["stmts"].append(["widx", src, c.int(0, 2), c.perm(3)])
+        prog["out"] = [len(prog["stmts"])]
+    # one program in three hands its last value back as it is: the caller's cotangent object then reaches that operation's rule itself
+    raw = len(prog["out"]) == 1 and prog["out"][0] != 0 and (prog["stmts"][-1][0] == "widx" or c.chance(1, 3))
+    y_shape = onp.shape(progs.run(prog, x0, onp, raw=raw))
     K = values.direction(vseed, y_shape, 33)
 
     def f(x, ns):
-        return progs.run(prog, x, ns) * K
+        return progs.run(prog, x, ns, raw=True) if raw else progs.run(prog, x, ns) * K
 
     kinds = [st[0] for st in prog["stmts"]]
     uses = {}
